@@ -14,7 +14,7 @@ RULE = ('xslstr stage: the string templates of akn_text.xsl (escape-inlines, esc
         'atoms of that alphabet in each of 20 text positions (paragraph, b/i/u/sup/sub/ref/term/remark, before/after an inline, adjacent inlines, heading, '
         'subheading, crossheading, num, list item, bullet, list introduction/wrap-up, table cell, speech from, attachment heading) - exhaustive; (3) every '
         'keyword at the start of every block position; (4) elements bluebell has no syntax for: all text outside meta and the judgment header must appear in '
-        'the unparsed text; (5) attribute values over the same alphabet without | } and line breaks. non-trivial = a string with a marker or keyword; '
+        'the unparsed text; (5) attribute values over the same alphabet without | } and line breaks; (6) one or two footnotes in each of 11 text positions, bare or inside each of 7 inline elements: the note content is written exactly once and the tree comes back. non-trivial = a string with a marker or keyword; '
         'distinct by (stream, position, string).')
 TRUSTED_BASE = [
     'Coq 8.16.1 kernel; vm_compute for the table theorems; no axioms',
@@ -56,7 +56,8 @@ def poison(rng, xml):
                 el.text = adv(rng); n += 1
             for c in el:
                 if c.tail and c.tail.strip() and rng.random() < 0.3:
-                    c.tail = ' ' + adv(rng); n += 1
+                    # (text after a br starts a line: leading whitespace there is layout)
+                    c.tail = ('' if xmlsx.local(c.tag) == 'br' else ' ') + adv(rng); n += 1
         if tag in ('p', 'section', 'table', 'blockList') and (len(el) or (el.text or '').strip()) and rng.random() < 0.05 \
                 and xmlsx.local(el.getparent().tag) not in ('longTitle', 'li', 'authorialNote'):
             el.set('class', re.sub(r'[^A-Za-z0-9_-]', '', adv(rng, True)) or 'c')
@@ -241,6 +242,53 @@ def _attr(args):
     r = roundtrip(attr_doc(kind, v), 'act')
     return r if r[0] == 'ok' else ('bad', r[1], r[2])
 
+# ---- (6) footnotes in every text position, bare and inside an inline: the note's content is written and comes back ----
+FN_POS = ['p', 'heading', 'subheading', 'crossheading', 'intro', 'wrapup', 'item-heading', 'cell', 'from', 'scene', 'att-heading']
+FN_WRAP = [None, 'sup', 'b', 'i', 'u', 'remark', 'ref', 'term']
+def fn_doc(pos, wrap, k=1):
+    def hc(*b): return E('hcontainer', {'name': 'hcontainer'}, E('content', None, *b))
+    notes = []
+    def note():
+        m = str(len(notes) + 1); notes.append(m)
+        n = E('authorialNote', {'marker': m, 'placement': 'bottom'}, E('p', None, 'note%sz text' % m))
+        if wrap is None: return n
+        at = {'ref': {'href': '#a'}, 'remark': {'status': 'editorial'}, 'term': {'refersTo': ''}}.get(wrap)
+        return E(wrap, at, 'w', n)
+    def content(): 
+        out = ['lead ']
+        for i in range(k):
+            out += [note(), ' mid ' if i + 1 < k else ' end']
+        return out
+    root = 'act'
+    if pos == 'p': body = hc(E('p', None, *content()))
+    elif pos == 'heading': body = E('section', None, E('num', None, '1'), E('heading', None, *content()), E('content', None, E('p', None, 't')))
+    elif pos == 'subheading': body = E('section', None, E('num', None, '1'), E('subheading', None, *content()), E('content', None, E('p', None, 't')))
+    elif pos == 'crossheading': body = E('hcontainer', {'name': 'hcontainer'}, E('crossHeading', None, *content()))
+    elif pos == 'intro': body = hc(E('blockList', None, E('listIntroduction', None, *content()), E('item', None, E('num', None, '(a)'), E('p', None, 't'))))
+    elif pos == 'wrapup': body = hc(E('blockList', None, E('item', None, E('num', None, '(a)'), E('p', None, 't')), E('listWrapUp', None, *content())))
+    elif pos == 'item-heading': body = hc(E('blockList', None, E('item', None, E('num', None, '(a)'), E('heading', None, *content()), E('p', None, 't'))))
+    elif pos == 'cell': body = hc(E('table', None, E('tr', None, E('td', None, E('p', None, *content())))))
+    elif pos == 'att-heading':
+        return 'act', len(notes) or k, E('akomaNtoso', None, E('act', {'name': 'act'}, E('body', None, hc(E('p', None, 'x'))),
+                        E('attachments', None, E('attachment', None, E('heading', None, *content()), E('doc', {'name': 'schedule'}, E('mainBody', None, E('p', None, 'y')))))))
+    elif pos in ('from', 'scene'):
+        inner = E('speech', None, E('from', None, *content()), E('p', None, 't')) if pos == 'from' else E('scene', None, *content())
+        return 'debate', k, E('akomaNtoso', None, E('debate', {'name': 'debate'}, E('debateBody', None, E('debateSection', {'name': 'debateSection'}, inner))))
+    return root, k, E('akomaNtoso', None, E(root, {'name': root}, E('body', None, body)))
+
+def _fn(args):
+    pos, wrap, k = args
+    root, n, t = fn_doc(pos, wrap, k)
+    try:
+        text = impl.parser().unparse(t)
+    except Exception as e:
+        return ('bad', 'unparse raised %s' % type(e).__name__, None)
+    lost = ['note%dz' % i for i in range(1, n + 1) if text.count('note%dz' % i) != 1]
+    if lost:
+        return ('bad', 'footnote content written %s by unparse: %r' % ('0 times or twice', lost), text)
+    r = roundtrip(t, root)
+    return r if r[0] == 'ok' else ('bad', r[1], r[2])
+
 # witnesses of the known findings
 def _deep(_):
     t = E('akomaNtoso', None, E('act', {'name': 'act'}, E('body', None, E('hcontainer', {'name': 'hcontainer'}, E('content', None, E('p', None, '\\*' * 1500))))))
@@ -331,6 +379,14 @@ def search(ctx, budget):
         ctx.evaluations += 1; ctx.count('attr_' + r[0])
         if r[0] == 'bad':
             ctx.failures.append(({'stage': 'attr', 'position': j[0], 'value': j[1], 'unparsed': r[2]}, r[1]))
+    # (6)
+    fj = [(pos, wrap, k) for pos in FN_POS for wrap in FN_WRAP for k in (1, 2)]
+    for j, r in zip(fj, impl.pmap(_fn, fj, chunk=4)):
+        ctx.evaluations += 1; ctx.count('footnote_' + r[0])
+        if r[0] == 'bad':
+            ctx.failures.append(({'stage': 'footnote', 'position': j[0], 'wrapper': j[1], 'notes': j[2], 'unparsed': r[2]}, r[1]))
+        else:
+            ctx.nontrivial(('fn',) + j)
     # witnesses of the listed findings
     for j, r in zip(WITNESS_ATTR, impl.pmap(_attr, WITNESS_ATTR, chunk=1)):
         ctx.evaluations += 1; ctx.count('witness_' + r[0])
@@ -353,7 +409,10 @@ def _attr_ws(case, desc):
 def _deep_clf(case, desc):
     return case.get('stage') == 'deep' and 'unparse raised XSLTApplyError' in desc
 
-CLASSIFIERS = {'c06_attr_whitespace': _attr_ws, 'c06_xslt_depth': _deep_clf}
+def _xh_fn(case, desc):
+    return case.get('stage') == 'footnote' and case.get('position') == 'crossheading' and '<hcontainer name="hcontainer"/>' in desc
+
+CLASSIFIERS = {'c06_attr_whitespace': _attr_ws, 'c06_xslt_depth': _deep_clf, 'c06_crossheading_footnote_hcontainer': _xh_fn}
 
 def replay(obj):
     case = obj.get('case') or (obj.get('disagreements') or [{}])[0].get('case')
@@ -368,6 +427,8 @@ def replay(obj):
         r = _nosyntax(case['seed']); print(r[:2]); return 1 if r[0] == 'bad' else 0
     if st == 'attr':
         r = _attr((case['position'], case['value'])); print(r[:2]); return 1 if r[0] == 'bad' else 0
+    if st == 'footnote':
+        r = _fn((case['position'], case['wrapper'], case['notes'])); print(r[:2]); return 1 if r[0] == 'bad' else 0
     if st == 'deep':
         r = _deep(0); print(r[:2]); return 1 if r[0] == 'bad' else 0
     return 0 if replay_xslstr(case) else 1
